@@ -280,6 +280,8 @@ type test struct {
 	args []konst
 }
 
+var ntests int
+
 func (t *test) emit(tr *vh.Trace, stats map[string]int) {
 	n := len(t.args)
 	litText := func(i int) string { return t.args[i].lit }
@@ -370,6 +372,24 @@ func (t *test) emit(tr *vh.Trace, stats map[string]int) {
 		addExtra("ifstmt", litMask(true), run("function () {\n"+pre.String()+body+"}", nil))
 		addExtra("ifstmt-par", litMask(false), run("function ("+allParams+") {\n"+body+"}", vals))
 	}
+	{
+		// block: the expression inside a block that captures the single-assignment locals
+		b, _ := t.e.render(parText)
+		body := "blk = { " + b + " }\nreturn blk()\n"
+		addExtra("block", litMask(true), run("function () {\n"+pre.String()+body+"}", nil))
+		if ntests%3 == 0 {
+			addExtra("block-par", litMask(false), run("function ("+allParams+") {\n"+body+"}", vals))
+		}
+	}
+	if t.e.op == "if" {
+		// the branches assign a local that is therefore not final
+		c, _ := t.e.a[0].render(parText)
+		tt, _ := t.e.a[1].render(parText)
+		ff, _ := t.e.a[2].render(parText)
+		body := "if (" + c + ")\n{ r = " + tt + " }\nelse\n{ r = " + ff + " }\nreturn r\n"
+		addExtra("ifassign", litMask(true), run("function () {\n"+pre.String()+body+"}", nil))
+		addExtra("ifassign-par", litMask(false), run("function ("+allParams+") {\n"+body+"}", vals))
+	}
 	// se: parameters are read through a block that logs the read, literals stay literals:
 	// folding must not change which operands are evaluated (side effects)
 	ses := []any{}
@@ -432,7 +452,6 @@ func main() {
 	tr := vh.Create(out)
 	defer tr.Close()
 	stats := map[string]int{}
-	ntests := 0
 	emit := func(e *expr, args ...konst) {
 		(&test{e: e, args: args}).emit(tr, stats)
 		ntests++
@@ -456,7 +475,7 @@ func main() {
 	for _, o := range binary {
 		for _, k1 := range ks {
 			for _, k2 := range ks {
-				if !vh.Thorough() && rnd.Intn(100) >= 14 {
+				if !vh.Thorough() && rnd.Intn(100) >= 10 {
 					continue
 				}
 				emit(bin(o.name, leaf(0), leaf(1)), k1, k2)
@@ -464,7 +483,7 @@ func main() {
 		}
 	}
 	// 3. ternary and in
-	nrand := 300
+	nrand := 240
 	if vh.Thorough() {
 		nrand = 3000
 	}
@@ -541,6 +560,33 @@ func main() {
 		var args []konst
 		for j := 0; j < n; j++ {
 			args = append(args, pick())
+		}
+		emit(e, args...)
+	}
+	// 6. patterns the folder rewrites when one operand is repeated: x > lo and x < hi (range),
+	//    x is a or x is b (in), also inside larger conjunctions
+	for i := 0; i < nrand/2; i++ {
+		x := leaf(0)
+		var e *expr
+		args := []konst{pick(), pick(), pick()}
+		if rnd.Intn(3) > 0 { // mostly comparable operands
+			args = []konst{ks[2+rnd.Intn(15)], ks[2+rnd.Intn(15)], ks[2+rnd.Intn(15)]}
+		}
+		switch rnd.Intn(4) {
+		case 0, 1:
+			lo := []string{"gt", "gte"}[rnd.Intn(2)]
+			hi := []string{"lt", "lte"}[rnd.Intn(2)]
+			e = bin("and", bin(lo, x, leaf(1)), bin(hi, x, leaf(2)))
+			if rnd.Intn(3) == 0 {
+				e = bin("and", bin(hi, x, leaf(2)), bin(lo, x, leaf(1)))
+			}
+		case 2:
+			e = bin("or", bin("is", x, leaf(1)), bin("is", x, leaf(2)))
+		default:
+			e = bin("or", bin("or", bin("is", x, leaf(1)), bin("is", x, leaf(2))), bin("isnt", x, leaf(1)))
+		}
+		if rnd.Intn(4) == 0 {
+			e = bin("and", e, bin("isnt", x, leaf(1)))
 		}
 		emit(e, args...)
 	}
